@@ -6,7 +6,7 @@ ENGINES = {
     'mtsim': {'sources': ['mtsim.c'], 'plain_sources': ['mtwrap.c'],
               'wraps': ['pthread_mutex_init', 'pthread_mutex_lock', 'pthread_mutex_unlock', 'pthread_mutex_destroy', 'atexit']},
     'protosim': {'sources': ['protosim.c', 'channel.c', 'proto_bake.c', 'proto_sm.c', 'proto_cvc.c'], 'common_sources': ['b2util.c']},
-    'faultcall': {'sources': ['faultcall.c', 'fc_belt.c', 'fc_misc.c', 'fc_bign.c', 'fc_proto.c', 'fc_math.c'], 'common_sources': ['b2util.c']},
+    'faultcall': {'sources': ['faultcall.c', 'fc_belt.c', 'fc_misc.c', 'fc_bign.c', 'fc_proto.c', 'fc_math.c', 'fc_other.c'], 'common_sources': ['b2util.c']},
 }
 
 REAL_ALL = ['all of /repo/src compiled from the current working tree with -DBEE2_VERIF']
@@ -145,11 +145,15 @@ CHECKS = {
         'level': 'exploration',
         'legs': [
             {'engine': 'faultcall', 'config': 'asan', 'variant': 'wipe', 'runs': [4000, 300000]},
+            {'engine': 'protosim', 'config': 'asan', 'variant': 'bake', 'runs': [6000, 600000]},
         ],
+        'sigs_per_leg': True,
         'rule': ('a case is one secret-taking high-level call executed twice from an identical simulator state (same public arguments, arena addresses, '
                  'memWipe counter) with two independent secrets, at a seeded exit: success, the error exit behind failed allocation #k, or a '
                  'descriptor error variant (bad key, corrupted token, dead generator); every block handed to free / left by a moving realloc / still '
-                 'live at return is snapshotted; distinct = distinct (function, return code, allocation trace) exits reached'),
+                 'live at return is snapshotted; distinct = distinct (function, return code, allocation trace) exits reached. '
+                 'Second leg: the bake/BAUTH sessions of C04 (faulted and tampered sessions reach the drivers\' error exits); every block released during a session '
+                 'and every block still allocated when both parties returned is scanned for 8-octet windows of the private keys, the password and the session keys'),
         'real': REAL_ALL,
         'stub': ['libc malloc/realloc/free (arena; realloc always moves)', 'caller generator (seeded tape drawn from the secret stream)'],
         'assumptions': [
@@ -157,7 +161,7 @@ CHECKS = {
             'pairs whose allocation traces or return codes differ are not compared (counted as incomparable) and fall back to the raw-secret window scan',
             'memWipe counter normalised through 1-octet public memWipe calls; the real memWipe stays under test',
         ],
-        'mandatory_probes': {'any': ['compared_pairs', 'probe.alloc_fault_after_secret_loaded', 'fault.error_variant']},
+        'mandatory_probes': {'any': ['compared_pairs', 'probe.alloc_fault_after_secret_loaded', 'fault.error_variant', 'probe.protocol_sessions_scanned', 'probe.protocol_error_exit_scanned']},
     },
     'C10': {
         'level': 'exploration',
